@@ -111,9 +111,9 @@ func prfStream(r *simctl.Rand) StreamSpec {
 // regular file or a pipe, possibly positioned behind an already consumed
 // header.
 func genCarrier(c *RunConfig, r *simctl.Rand, fast bool) {
-	kinds := []string{"bytes", "bytes", "file", "pipe", "bufio", "bufio", "writerto", "fifo", "func", "valuestruct", "seeker"}
+	kinds := []string{"bytes", "bytes", "file", "pipe", "bufio", "bufio", "writerto", "fifo", "func", "valuestruct", "seeker", "locker"}
 	c.Carrier = kinds[r.Intn(len(kinds))]
-	if c.Carrier == "func" || c.Carrier == "valuestruct" || c.Carrier == "seeker" {
+	if c.Carrier == "func" || c.Carrier == "valuestruct" || c.Carrier == "seeker" || c.Carrier == "locker" {
 		// (wrappers of the simulated device keep the case's read sizes and EOF form)
 		return
 	}
@@ -426,6 +426,12 @@ func Plan(prop, tier string, seed uint64) []RunConfig {
 						// nobody listens to the process's standard output
 						c.Stdio = []string{"closed", "pipe-closed"}[r.Intn(2)]
 					}
+					if r.Intn(7) == 0 {
+						// the generator delivers one sample twice in a row: the rule
+						// counts both, nothing in it compares samples with each other
+						B := Info(w).SampleBytes
+						c.Stream.DupAt, c.Stream.DupLen = int64(1+r.Intn(Info(w).Samples-1))*int64(B), B
+					}
 					out = append(out, c)
 				}
 			}
@@ -478,6 +484,11 @@ func Plan(prop, tier string, seed uint64) []RunConfig {
 					}
 					if r.Intn(12) == 0 {
 						c.Stdio = []string{"closed", "pipe-closed"}[r.Intn(2)]
+					}
+					if r.Intn(9) == 0 {
+						// one sample delivered twice in a row
+						B := Info(w).SampleBytes
+						c.Stream.DupAt, c.Stream.DupLen = int64(1+r.Intn(Info(w).Samples-1))*int64(B), B
 					}
 					out = append(out, c)
 				}
@@ -644,7 +655,7 @@ func Plan(prop, tier string, seed uint64) []RunConfig {
 							if r.Intn(4) == 0 {
 								// the failing device behind another dynamic type: a func
 								// adapter, a struct passed by value, a seekable device node
-								c.Carrier = []string{"func", "valuestruct", "seeker"}[r.Intn(3)]
+								c.Carrier = []string{"func", "valuestruct", "seeker", "locker"}[r.Intn(4)]
 							} else if (kind == "eof" || kind == "ueof") && sticky && r.Intn(3) == 0 {
 								// the source that ends early is a truncated file or a short
 								// in-memory reader (ReaderAt, Seeker, Len, WriteTo ...)
@@ -908,6 +919,29 @@ func Plan(prop, tier string, seed uint64) []RunConfig {
 					out = append(out, c)
 				}
 			}
+			// a device stuck at one byte value is not always a sample the poker
+			// test rejects: the 24 byte values made of four different 2-bit groups
+			// (0x1B, 0x1E, ... 0xE4) repeat to a perfectly flat m=2 histogram. Every
+			// such value at every m=2 length, plus any constant byte at a few.
+			for nb := 16; nb < 40; nb++ {
+				for b := 0; b < 256; b++ {
+					seen := [4]bool{}
+					for sh := uint(0); sh < 8; sh += 2 {
+						seen[(b>>sh)&3] = true
+					}
+					flat := seen[0] && seen[1] && seen[2] && seen[3]
+					if !flat && r.Intn(40) != 0 {
+						continue
+					}
+					c := singleCase(prop, nb, r)
+					c.Stream = StreamSpec{Kind: "const", Byte: b}
+					c.Prelude, c.Companion, c.Carrier, c.CarrierOffset = nil, nil, "", 0
+					if flat {
+						c.Note = "constant-byte-with-flat-dibit-histogram"
+					}
+					out = append(out, c)
+				}
+			}
 			// selected larger lengths: around powers of two and multiples of 65536
 			// (where narrow counters wrap), on constant, biased and PRF contents
 			for _, nb := range []int{65535, 65536, 65537, 131072, 196608, 262143, 262144, 262145, 270000, 327680, 524288, 1 << 20, 1<<20 + 1000, 1<<21 + 7, 1 << 22} {
@@ -1086,7 +1120,7 @@ func planC14(prop string, thorough bool, r *simctl.Rand) []RunConfig {
 			c.Companion = []PreludeSpec{{Workflow: w, Stream: StreamSpec{Kind: "prf", Seed: r.Uint64()}}}
 		}
 		if r.Intn(5) == 0 {
-			c.Carrier = []string{"func", "valuestruct", "seeker"}[r.Intn(3)]
+			c.Carrier = []string{"func", "valuestruct", "seeker", "locker"}[r.Intn(4)]
 		}
 		if wi.SampleBytes == 2500 && r.Intn(8) == 0 {
 			// the stuck device also glitches: a short burst of read errors, then it delivers
